@@ -12,6 +12,7 @@ import (
 
 type Stream struct {
 	PcapId    string
+	Closed    bool // what GetIsClosed reports (a stream closed by FIN / timeout while its halves still drain)
 	itemCount int64
 	Protocol  *api.Protocol
 	mu        sync.Mutex
@@ -26,7 +27,7 @@ func (t *Stream) GetReqResMatchers() []api.RequestResponseMatcher {
 	return nil
 }
 func (t *Stream) GetIsTargeted() bool { return true }
-func (t *Stream) GetIsClosed() bool   { return false }
+func (t *Stream) GetIsClosed() bool   { return t.Closed }
 func (t *Stream) IncrementItemCount() { atomic.AddInt64(&t.itemCount, 1) }
 func (t *Stream) Count() int64        { return atomic.LoadInt64(&t.itemCount) }
 
